@@ -13,6 +13,16 @@ from .. import p3, tlc
 from ..common import ROOT, MachineryError
 
 LEVEL = "model_checking"
+
+
+def _listfile(paths):
+    """argv cannot carry thousands of paths: write them to a file and pass @file"""
+    import tempfile
+    f = tempfile.NamedTemporaryFile("w", suffix=".json", delete=False, dir=__import__("os").path.dirname(paths[0]))
+    json.dump(paths, f)
+    f.close()
+    return "@" + f.name
+
 INV = ["TypeOK", "AtMostOnce", "NoForgery", "AckedImpliesDelivered", "GiveUpOnlyAfterBudget", "BudgetRespected",
        "MalformedRejected", "WellFormedDelivered"]
 
@@ -34,7 +44,7 @@ warnings.filterwarnings("ignore"); logging.disable(logging.CRITICAL)
 from pathlib import Path
 from harness import tlc
 from harness.drive import acked
-files, R, out = json.loads(sys.argv[1]), int(sys.argv[2]), sys.argv[3]
+files, R, out = json.load(open(sys.argv[1][1:])) if sys.argv[1].startswith("@") else json.loads(sys.argv[1]), int(sys.argv[2]), sys.argv[3]
 res = []
 for f in files:
     beh = tlc.parse_sim_file(Path(f))
@@ -51,7 +61,7 @@ warnings.filterwarnings("ignore"); logging.disable(logging.CRITICAL)
 from pathlib import Path
 from harness import tlc
 from harness.drive import session
-files, out = json.loads(sys.argv[1]), sys.argv[2]
+files, out = json.load(open(sys.argv[1][1:])) if sys.argv[1].startswith("@") else json.loads(sys.argv[1]), sys.argv[2]
 res = []
 for f in files:
     beh = tlc.parse_sim_file(Path(f))
@@ -83,7 +93,7 @@ def session_part(ctx) -> dict:
     if not files:
         raise MachineryError("no behaviours from TLC simulation of Session:\n" + rs.out[-2000:])
     rf = ctx.scratch / "session_replay.json"
-    p = subprocess.run([sys.executable, "-W", "ignore", "-c", SESSION_REPLAY, json.dumps([str(f) for f in files]), str(rf)], cwd=ROOT,
+    p = subprocess.run([sys.executable, "-W", "ignore", "-c", SESSION_REPLAY, _listfile([str(f) for f in files]), str(rf)], cwd=ROOT,
                        stdout=subprocess.PIPE, stderr=subprocess.STDOUT, text=True, timeout=1800)
     if p.returncode != 0 or not rf.exists():
         raise MachineryError("session replay failed:\n" + p.stdout[-3000:])
@@ -141,7 +151,7 @@ def run(ctx):
     if not files:
         raise MachineryError("TLC simulation produced no behaviours:\n" + r.out[-2000:])
     rf = scratch / "replay.json"
-    p = subprocess.run([sys.executable, "-W", "ignore", "-c", REPLAY, json.dumps([str(f) for f in files]), str(R), str(rf)],
+    p = subprocess.run([sys.executable, "-W", "ignore", "-c", REPLAY, _listfile([str(f) for f in files]), str(R), str(rf)],
                        cwd=ROOT, stdout=subprocess.PIPE, stderr=subprocess.STDOUT, text=True, timeout=1800)
     if p.returncode != 0 or not rf.exists():
         raise MachineryError("replay failed:\n" + p.stdout[-3000:])
